@@ -235,3 +235,7 @@ mod tests {
         }
     }
 }
+
+#[cfg(all(aws_s2n_quic_verif, any(test, all(kani, feature = "testing"))))]
+#[path = "/verif/harness/transport/crypto_stream.rs"]
+mod verif;
